@@ -171,3 +171,67 @@ def r7_inclusion_right_operand(ctx):
 
 
 RULES += [r7_inclusion_right_operand]
+
+
+def r8_leq_table_sizes(ctx):
+    ctx.rule("C04.r8", "zones / octagons inclusion: the answer never depends on the SIZE of the vertex tables, and a variable of the right "
+             "operand that is missing on the left refutes the inclusion only if the right operand constrains it (a vertex can "
+             "exist for an unconstrained variable, e.g. after widening)", floor=3)
+    files = (("include/crab/domains/split_dbm.hpp", "crab::domains::split_dbm_domain"),
+             ("include/crab/domains/split_oct.hpp", "crab::domains::split_oct_domain"),
+             ("include/crab/domains/sparse_dbm.hpp", "crab::domains::sparse_dbm_domain"))
+    for f, cpk in files:
+        fs = ctx.db.fns(f, pk=cpk + "::operator<=")
+        if not ctx.need(fs, cpk + "::operator<="):
+            continue
+        for fn in fs:
+            body = fn["body"]
+            problems = []
+            n_missing = 0
+            bodies = [body] + [l.get("b") for l in walk(body) if l.get("k") == "lambda" and l.get("b") is not None]
+            allrets = []
+            for bd in bodies:
+                gg = paths.guards(bd)
+                for r in rets(bd):
+                    allrets.append((r, gg, bd))
+            for r, g, bd in allrets:
+                v = strip(r.get("v"))
+                if not (isinstance(v, dict) and v.get("k") == "lit" and v.get("v") == "false"):
+                    continue
+                gs = [(c, p) for c, p in g.get(id(r), ()) if not isinstance(c, tuple)]
+                for c, p in gs:
+                    # (1) size comparison of the vertex tables
+                    pp = cmp_parts(c)
+                    if pp and pp[0] in ("<", ">", "<=", ">=", "!=", "==") and \
+                            all(is_call(strip(x), name="size") and any(y.get("k") == "mem" and "vert_map" in (y.get("n") or "") for y in walk(x))
+                                for x in (pp[1], pp[2])):
+                        problems.append((r, "answers no from `%s`: the tables also hold vertices of unconstrained variables" % src(c)[:60],
+                                         "leq-table-size"))
+                    # (2) lookup of a right variable failed on the left
+                    if pp and pp[0] == "==" and p and any(is_call(y, name="end") for y in walk(c)):
+                        n_missing += 1
+                        def unconstrained(cc):
+                            cc = strip(cc)
+                            if isinstance(cc, dict) and cc.get("k") == "bin" and cc.get("op") == "&&":
+                                return 1 if (unconstrained(cc.get("L")) or unconstrained(cc.get("R"))) else 0
+                            q = cmp_parts(cc)
+                            if q and q[0] == "==" and any(is_call(y, name=("succs", "preds")) for y in walk(cc)) and \
+                                    any(isinstance(strip(z), dict) and strip(z).get("k") == "lit" and strip(z).get("v") == "0" for z in (q[1], q[2])):
+                                return 1
+                            return 0
+                        from ..match import guard_truth
+                        t = guard_truth(g.get(id(r), ()), unconstrained, bd)
+                        if t is not False:
+                            problems.append((r, "answers no because a variable of the right operand has no vertex on the left, before "
+                                             "testing whether the right operand constrains that variable at all", "leq-missing-unconstrained"))
+            if problems:
+                r, msg, sig = problems[0]
+                ctx.bad("%s::operator<= %s: two values describing the same states can be reported as not included" %
+                        (cpk.split("::")[-1], msg), fn, r, sig=sig)
+            elif n_missing == 0:
+                ctx.undecided("%s::operator<=: the missing-vertex test was not found" % cpk.split("::")[-1], fn, body)
+            else:
+                ctx.ok("inclusion does not depend on table sizes; missing vertices matter only when constrained", fn, body)
+
+
+RULES += [r8_leq_table_sizes]
